@@ -97,3 +97,19 @@ Proof.
   exact (window_q_form _ _ wi wj Hwi Hwj (edf_window_weights ws pre s0 picks s1 Hpos Hpre Hrun i j wi wj Hi Hj)).
 Qed.
 Print Assumptions c06_edf_window_rational.
+
+(* Hosts may JOIN a running scheduler: for every history of Adds (positive periods per = D/w for a common
+   multiple D of the weights) and picks reaching s0, and every window of picks from s0, the bound holds for
+   all entries present at the window start (scaled form: n_i*per_i stands for n_i/w_i * D). *)
+Theorem c06_edf_window_after_late_add : forall pre s0 picks s1,
+  Forall eop_ok pre -> edf_exec edf_init pre = Some s0 -> edf_run s0 picks = Some s1 ->
+  forall i j, (i < length (es s0))%nat -> (j < length (es s0))%nat ->
+  Z.abs (count_pick i picks * per_at s0 i - count_pick j picks * per_at s0 j)
+    <= per_at s0 i + per_at s0 j.
+Proof. exact edf_window_reachable. Qed.
+Print Assumptions c06_edf_window_after_late_add.
+
+Example c06_late_add_example :
+  exists s0 s1, edf_exec edf_init [OAdd 128; OAdd 1; OPick 1%nat; OPick 1%nat; OAdd 2] = Some s0 /\
+                edf_run s0 [1%nat; 2%nat; 1%nat] = Some s1 /\ List.length (es s0) = 3%nat.
+Proof. eexists; eexists; split; [vm_compute; reflexivity|split; vm_compute; reflexivity]. Qed.
